@@ -24,7 +24,8 @@ Inductive item :=
 | IRemoveM (rr : bool) (K : list ident) (kept : bool) (r : rule) (gs : list ident) (mg : list ident)
      (* remove_genes(model, K, remove_reactions=rr): reaction still in the model?, its rule,
         reaction.genes, model.genes *)
-| IEq (other : rule) (b : bool).                (* gpr == other *)
+| IEq (other : rule) (b : bool)                 (* gpr == other *)
+| IRaised.                                      (* the observation raised an exception *)
 
 Definition case := (str * option rule * orule * list item)%type.
 
@@ -91,6 +92,7 @@ Definition check_item (m ob : rule) (intended : option rule) (it : item) : list 
   | IEq other b =>
       code (Bool.eqb b (gpr_eq m other)) 1 ++
       code (negb b || equiv_rule ob other) 7
+  | IRaised => [1%nat; 8%nat]
   end.
 
 Fixpoint check_items (m ob : rule) (intended : option rule) (its : list item) (n : nat) : list (nat * nat) :=
